@@ -135,6 +135,7 @@ type Cluster struct {
 	faultNode  int                   // -1: at any node, else only at this node
 	stalled    map[int]chan struct{} // node -> release channel: data requests to it are held unprocessed
 	held       int                   // data requests currently held by a stalled node
+	parkReleases int                 // parked requests released by the schedule (event kind "p")
 	parkedConn net.Conn              // the connection whose CLUSTER SLOTS request is parked (kept open when its node goes down)
 	closed     bool
 	conns      map[net.Conn]struct{}
@@ -294,6 +295,14 @@ func (d *Cluster) applyLocked(ev MigEv) bool {
 		}
 		d.owner[ev.Slot] = int16(ev.Dst)
 		d.trace = append(d.trace, fmt.Sprintf("v:%d:%d", ev.Slot, ev.Dst))
+	case "p": // session 5 (C19): release the parked CLUSTER SLOTS request NOW (at a request count: while a batch is in
+		// flight); the refresh goroutine of the client gets its reply (trace token `r` when it is computed) and installs it
+		if d.parked == nil {
+			return false
+		}
+		close(d.parked)
+		d.parked = nil
+		d.parkReleases++
 	case "F": // fault injection: the next plain data request is answered -ERR without executing (er),
 		// its connection is closed before it is applied (cb), or after it was applied, without a reply (ac)
 		if ev.Key != "er" && ev.Key != "cb" && ev.Key != "ac" {
@@ -768,6 +777,13 @@ func (d *Cluster) WaitParked(timeout time.Duration) bool {
 		time.Sleep(50 * time.Microsecond)
 	}
 	return false
+}
+
+// ParkReleases: how many parked CLUSTER SLOTS requests the schedule (event kind "p") has released
+func (d *Cluster) ParkReleases() int {
+	d.mu.Lock()
+	defer d.mu.Unlock()
+	return d.parkReleases
 }
 
 func (d *Cluster) ReleaseParked() bool {
